@@ -17,6 +17,7 @@ def Err.isCorruption : Err → Prop
 /-- The buffer is intact: it holds `D`, or a prefix of `D` followed by a failure. -/
 def Sound (D : Bytes) : Buf → Prop
   | .bytes data => data = D
+  | .readerAt data _ => data = D
   | .error e => ¬ e.isCorruption
   | .chunks d s => d.size = D.length ∧ d.valid D = true ∧ (scan s).1.flatten <+: D ∧
       ((scan s).2 = .eof → (scan s).1.flatten = D)
@@ -36,6 +37,7 @@ theorem SoundH.head {D : Bytes} {b : Buf} {h : List Resp} (g : SoundH D (.repl b
 theorem Sound.good {D : Bytes} {b : Buf} (s : Sound D b) : Good D b := by
   cases b with
   | bytes data => exact s
+  | readerAt data suf => exact s
   | error e => trivial
   | chunks d sc => exact ⟨s.1, s.2.2.1⟩
   | reader d sc => exact ⟨s.1, s.2.2.1⟩
@@ -83,6 +85,7 @@ theorem casFull_sound {D : Bytes} {d : Digest} {s : List Item} {e : Err}
 theorem whole_sound {D : Bytes} {b : Buf} {e : Err} (s : Sound D b) (he : whole b = .error e) : ¬ e.isCorruption := by
   cases b with
   | bytes data => simp [whole] at he
+  | readerAt data suf => simp [whole] at he
   | error e' => simp [whole] at he; subst he; exact s
   | chunks d sc => exact casFull_sound s.1 s.2.1 s.2.2.1 s.2.2.2 he
   | reader d sc => exact casFull_sound s.1 s.2.1 s.2.2.1 s.2.2.2 he
@@ -92,6 +95,11 @@ theorem baseSlice_sound {D : Bytes} {max : Nat} {b : Buf} {e : Err} (s : Sound D
     (he : baseSlice max b = .error e) : ¬ e.isCorruption := by
   cases b with
   | bytes data =>
+    simp only [baseSlice] at he
+    by_cases hh : data.length > max
+    · rw [if_pos hh] at he; cases he; simp [Err.isCorruption]
+    · rw [if_neg hh] at he; cases he
+  | readerAt data suf =>
     simp only [baseSlice] at he
     by_cases hh : data.length > max
     · rw [if_pos hh] at he; cases he; simp [Err.isCorruption]
@@ -119,6 +127,11 @@ theorem baseReadAt_sound {D : Bytes} {off n : Nat} {b : Buf} {e : Err} (s : Soun
   | bytes data =>
     simp only [baseReadAt] at he
     by_cases hh : off > data.length
+    · rw [if_pos hh] at he; cases he
+    · rw [if_neg hh] at he; cases he
+  | readerAt data suf =>
+    simp only [baseReadAt] at he
+    by_cases hh : off ≥ (data ++ suf).length
     · rw [if_pos hh] at he; cases he
     · rw [if_neg hh] at he; cases he
   | error e' => simp [baseReadAt] at he; subst he; exact s
@@ -173,6 +186,14 @@ theorem openChunks_sound {D : Bytes} {b : Buf} (off m : Nat) (s : Sound D b) :
   have hfl := openChunks_flatten b off m
   cases b with
   | bytes data =>
+    simp only [Sound] at s; subst s
+    simp only [content] at hfl
+    refine ⟨fun _ => hfl, fun e he => ?_⟩
+    simp only [openChunks] at he
+    by_cases hh : off > data.length
+    · rw [if_pos hh] at he; cases he; simp [Err.isCorruption]
+    · rw [if_neg hh] at he; cases he
+  | readerAt data suf =>
     simp only [Sound] at s; subst s
     simp only [content] at hfl
     refine ⟨fun _ => hfl, fun e he => ?_⟩
@@ -337,6 +358,13 @@ theorem openReader_sound {D : Bytes} {b : Buf} (off : Nat) (s : Sound D b) :
     (∀ e, (openReader b off).term = .err e → ¬ e.isCorruption) := by
   cases b with
   | bytes data =>
+    simp only [Sound] at s; subst s
+    refine ⟨fun _ => rfl, fun e he => ?_⟩
+    simp only [openReader] at he
+    by_cases hh : off > data.length
+    · rw [if_pos hh] at he; simp [RSrc.term] at he; subst he; simp [Err.isCorruption]
+    · rw [if_neg hh] at he; simp [RSrc.term] at he
+  | readerAt data suf =>
     simp only [Sound] at s; subst s
     refine ⟨fun _ => rfl, fun e he => ?_⟩
     simp only [openReader] at he
@@ -729,9 +757,14 @@ theorem plainOp_bytes_not_corrupt (D : Bytes) (op : Op) (e : Err) (h : ResultErr
   | discard => simp [plainOp, ResultErr] at h
   | size => simp [plainOp, ResultErr] at h
 
+theorem plainOp_readerAt_not_corrupt (D suf : Bytes) (op : Op) (e : Err)
+    (h : ResultErr (plainOp (.readerAt D suf) op) e) : ¬ e.isCorruption := by
+  rcases plainOp_readerAt_err D suf op e h with rfl | ⟨a, b, rfl⟩ | ⟨a, b, rfl⟩ <;> simp [Err.isCorruption]
+
 theorem withEH_log_sound (D : Bytes) : ∀ (h : List Resp) (base : Buf), Sound D base → SoundH D h →
     ∀ e, e ∈ (withEH base h).2.1 → ¬ e.isCorruption
   | h, .bytes data, _, _, e, he => by simp [withEH] at he
+  | h, .readerAt data suf, _, _, e, he => by simp [withEH] at he
   | h, .chunks d s, _, _, e, he => by simp [withEH] at he
   | h, .reader d s, _, _, e, he => by simp [withEH] at he
   | h, .clone d s, _, _, e, he => by simp [withEH] at he
